@@ -1,7 +1,7 @@
 (* Extract.v — extraction of the executable models to OCaml (ExtrOcamlBasic directives only). *)
 Require Extraction.
 Require Import ExtrOcamlBasic.
-From AD Require Import Bytes Outcome Gen Gzip.
+From AD Require Import Bytes Outcome Gen Gzip Ar.
 Extraction Language OCaml.
 Set Extraction KeepSingleton.
-Extraction "model.ml" gzip_init gzip_process class_of bytes_after.
+Extraction "model.ml" profile gzip_init gzip_process ar_process class_of bytes_after.
